@@ -3,7 +3,7 @@
 use proptest::collection::vec;
 use proptest::prelude::*;
 use proptest::sample::select;
-use refmodel::{erl_cmp, BigI, Cmp, Value};
+use refmodel::{BigI, Value};
 
 #[derive(Clone, Copy, Debug)]
 pub struct GenCfg {
@@ -290,7 +290,7 @@ pub fn dedupe_map(entries: Vec<(Value, Value)>, eq_num_keys: bool) -> Vec<(Value
             if eq_num_keys {
                 k2.canon() == k.canon()
             } else {
-                erl_cmp(k2, &k) == Cmp::Equal
+                refmodel::order::loose_eq(k2, &k)
             }
         });
         if !dup {
@@ -317,13 +317,15 @@ pub fn arb_value(cfg: GenCfg) -> BoxedStrategy<Value> {
         if cfg.eq_num_keys {
             alts.push((
                 2,
-                (-3i64..3, 0u8..6, any::<bool>(), inner.clone(), inner.clone())
+                (-3i64..3, 0u8..7, any::<bool>(), inner.clone(), inner.clone())
                     .prop_map(|(n, kind, swap, a, b)| {
                         let (k1, k2) = match kind {
                             0 | 1 => (Value::int(n as i128), Value::float(n as f64)),
                             2 => (Value::float(0.0), Value::float(-0.0)),
                             3 => (Value::int(1 << 53), Value::float(9007199254740992.0)),
                             4 => (Value::Tuple(vec![Value::int(n as i128)]), Value::Tuple(vec![Value::float(n as f64)])),
+                            // maps as keys whose own keys differ only by int / float: different maps in Erlang (even under ==)
+                            5 => (Value::Map(vec![(Value::int(n as i128), Value::atom("v"))]), Value::Map(vec![(Value::float(n as f64), Value::atom("v"))])),
                             _ => (Value::list(vec![Value::float(0.0)]), Value::list(vec![Value::float(-0.0)])),
                         };
                         if swap {
